@@ -612,7 +612,8 @@ impl FatVolume {
                         lfn_buffer.push(&buffer);
                         SeqState::Complete { csum }
                     }
-                    (true, sequence, _) if sequence >= 0x02 && sequence < 0x14 => {
+                    // a name of up to 255 characters takes up to 20 (0x14) fragments
+                    (true, sequence, _) if sequence >= 0x02 && sequence <= 0x14 => {
                         lfn_buffer.clear();
                         lfn_buffer.push(&buffer);
                         SeqState::Remaining {
@@ -625,7 +626,7 @@ impl FatVolume {
                         SeqState::Complete { csum }
                     }
                     (false, sequence, SeqState::Remaining { csum, next })
-                        if sequence >= 0x01 && sequence < 0x13 && next == sequence =>
+                        if sequence >= 0x01 && sequence < 0x14 && next == sequence =>
                     {
                         lfn_buffer.push(&buffer);
                         SeqState::Remaining {
